@@ -6,10 +6,13 @@ macro_rules! dispatch {
     ($id:expr, $f:ident $(, $a:expr)*) => {
         match $id {
             "C01" => $f::<props::c01::P>($($a),*),
+            "C02" => $f::<props::c02::P>($($a),*),
             "C03" => $f::<props::c03::P>($($a),*),
             "C04" => $f::<props::c04::P>($($a),*),
             "C10" => $f::<props::c10::P>($($a),*),
             "C11" => $f::<props::c11::P>($($a),*),
+            "C12" => $f::<props::c12::P>($($a),*),
+            "C14" => $f::<props::c14::P>($($a),*),
             other => {
                 eprintln!("unknown property {other}");
                 std::process::exit(2)
@@ -23,6 +26,14 @@ fn arg<'a>(args: &'a [String], name: &str) -> Option<&'a str> {
 }
 
 fn main() {
+    // Many checks clone 300 KB compressor states millions of times; keep malloc from going to the
+    // kernel (mmap/munmap/brk trimming) for every clone, which serialises badly across 16 processes.
+    // SAFETY: plain mallopt calls before any threads exist
+    unsafe {
+        libc::mallopt(libc::M_MMAP_THRESHOLD, 32 << 20);
+        libc::mallopt(libc::M_TRIM_THRESHOLD, 1 << 30);
+        libc::mallopt(libc::M_TOP_PAD, 64 << 20);
+    }
     let args: Vec<String> = std::env::args().collect();
     if args.len() < 3 {
         eprintln!("usage: mzv check <Cxx> <quick|thorough> | worker … | replay <Cxx> <file> [--profile p] | selfcheck");
@@ -48,7 +59,7 @@ fn main() {
                 out: arg(&args, "--out").unwrap().into(),
                 journal: arg(&args, "--journal").map(Into::into),
                 cases: arg(&args, "--cases").unwrap().parse().unwrap(),
-                do_fixed: true,
+                do_fixed: !args.iter().any(|a| a == "--no-fixed"),
                 do_selfcheck: args.iter().any(|a| a == "--selfcheck"),
             };
             dispatch!(args[2].as_str(), run_worker, &a)
